@@ -154,6 +154,12 @@ fn conv_level(rng: &mut Rng, o: &ConvOpts, name: String, depth_left: usize, inhe
             }
             if o.typed && a.delim.is_none() && rng.chance(1, 5) {
                 a.vp = Some(Vp::I64(0, 1_000_000));
+                if !a.default_missing.is_empty() {
+                    a.default_missing = vec!["7".into()];
+                }
+                if !a.defaults.is_empty() {
+                    a.defaults = vec!["8".into()];
+                }
             }
         }
         if o.env && rng.chance(1, 3) {
